@@ -7,7 +7,7 @@ PROP = dict(
          'absent options, entries of the built-in scripts): regular files of 0..300000 bytes, directories, symlinks with '
          'targets of 1..4095 bytes, char and block devices with majors up to 4095 and minors up to 2^20-1, absent paths, '
          'setuid/setgid/sticky modes, ids up to 2^32-1, mtimes from 1901 to 2446, 0..12 xattrs with name lists beyond 256 '
-         'bytes and values beyond 1024 bytes, hard-link groups; every 6th case is also produced through gzip, bzip2 and xz. '
+         'bytes and values beyond 1024 bytes, hard-link groups, groups of src= entries copying one inode that lives inside the build root (singly or multiply linked, staged or not, path written as $$stageroot/..., absolute or relative); every 6th case is also produced through gzip, bzip2 and xz. '
          'Non-trivial: some member is not a default regular file (special bits, non-root or big ids, link, device, xattr, '
          'override, absent); distinct by the multiset of (origin, entry type, field-value classes) of the members',
     explanation='theorems: header_faithful, override_exact, absent_defaults, dev_roundtrip (all 64-bit st_rdev), '
